@@ -168,7 +168,7 @@ Proof.
     eapply rg_rd; [exact C|exact R|apply (ENV rd_item_name w n (fun _ => True) C NO); auto|]. intros nm _.
     destruct nm as [x|]; [|apply rg_ret; assumption]. cbv zeta.
     eapply rg_bind.
-    - unfold remove_identifiable. apply rg_modify_model; auto. intros y. apply (ENV mok_remove_identifiable).
+    - unfold remove_identifiable. apply rg_modify_model; auto; intros y; apply (ENV mok_remove_identifiable).
     - intros [] w1 C1 X1 R1. apply rg_ret; assumption. }
   intros path' w1 C1 X1 R1.
   assert (Lm1 : m < N.of_nat (List.length (w_models w1))) by (eapply (ENV ext_models); eauto).
@@ -179,7 +179,7 @@ Proof.
     destruct (ENV character_data_ok w n NO) as (cd & ECD).
     eapply rg_rd; [exact C1|exact R1|apply (rd_wl _ cd w1 (fun a => a = cd) ECD); reflexivity|]. intros a ->.
     destruct cd as [[e|r|u|fl]|]; try (apply rg_ret; assumption).
-    unfold remove_reference_origin. apply rg_modify_model; auto. intros y. apply (ENV mok_remove_reference_origin). }
+    unfold remove_reference_origin. apply rg_modify_model; auto; intros y; apply (ENV mok_remove_reference_origin). }
   intros [] w2 C2 X2 R2.
   assert (Lm2 : m < N.of_nat (List.length (w_models w2))) by (eapply (ENV ext_models); eauto).
   eapply rg_bind.
@@ -463,7 +463,7 @@ Proof.
     intros [] w3 C3 X3 R3.
     apply rg_modify_model; auto.
     + eapply (ENV ext_models); [exact X3|]. eapply (ENV ext_models); [exact X2|exact Lm1].
-    + intros y (A & _ & _). split; [exact A|]. split; [intros k e []|intros k l e []].
+    + intros y (A & _). split; [exact A|intros k l e []].
   - eapply rg_bind.
     + apply rg_try. apply (rg_e_remove_from_file w w1 (m_root x) f C1 R1 LV1 LR1).
       destruct X1 as (_ & _ & FL). lia.
